@@ -877,6 +877,16 @@ FAMILY = [
      "v + 1",
      "w: Union[Literal['a', 'b', 'c'], Literal[1, 2]] = 'zzz'",
      "def ret(c) -> Union[Literal['p', 'q', 'r'], Red, Green]:\n  return 2.5 if c else b''"],
+    # unions in annotations that end up in messages through declarations printed as they were written (signature
+    # mismatches of overrides, wrong-arg-types, bad-return): analysed after a variant whose unions list the same members
+    # in another order (history "after_variant"), every message must be the one a fresh process prints
+    ["from typing import Optional, Union",
+     "class Base:\n  def f(self, x: int | str, y: Union[bytes, None, float] = None) -> None: ...\n"
+     "  def g(self, *, k: Optional[Union[str, int]]) -> Union[list[int | str], dict[str, bytes | None]]: ...",
+     "class Child(Base):\n  def f(self) -> None: ...\n  def g(self, k) -> int: ...",
+     "def h(a: str | int | None, b: Union[float, bytes]) -> bytes | str:\n  return 2.5",
+     "h(2.5, 's')\nh([], {})",
+     "u: dict[int | str, Union[bytes, float]] = {2.5: 's'}"],
 ]
 
 
@@ -884,7 +894,46 @@ def prog_text(chunks):
   return "\n".join(chunks) + "\n"
 
 
-HISTORIES = ["fresh", "after_k", "reused_loader"]
+HISTORIES = ["fresh", "after_k", "reused_loader", "after_variant"]
+
+
+def union_variant(src):
+  """the same program with the members of every union annotation listed in the opposite order (`A | B` -> `B | A`,
+  `Union[A, B, C]` -> `Union[C, B, A]`): to pytype an equal program up to the spelling of its unions; when the source has
+  no union it is returned unchanged (history: the same module analysed twice)"""
+  import ast
+
+  class Swap(ast.NodeTransformer):
+    def visit_BinOp(self, node):
+      self.generic_visit(node)
+      if isinstance(node.op, ast.BitOr):
+        node.left, node.right = node.right, node.left
+      return node
+
+    def visit_Subscript(self, node):
+      self.generic_visit(node)
+      if isinstance(node.value, ast.Name) and node.value.id == "Union" and isinstance(node.slice, ast.Tuple):
+        node.slice.elts = node.slice.elts[::-1]
+      return node
+
+  try:
+    tree = ast.parse(src)
+  except SyntaxError:
+    return src
+
+  def in_ann(n):
+    for f in ("annotation", "returns"):
+      a = getattr(n, f, None)
+      if a is not None:
+        setattr(n, f, Swap().visit(a))
+  for n in ast.walk(tree):
+    in_ann(n)
+  out = ast.unparse(tree) + "\n"
+  try:
+    compile(out, "<variant>", "exec")
+  except SyntaxError:
+    return src
+  return out
 
 
 LIB_PYI = "\n".join("class %s:\n    x: int\n" % n for n in
@@ -956,6 +1005,12 @@ def matrix_jobs(programs, unrelated, seeds, k=2, chunks_per_seed=4):
       order = part[::-1] if si % 2 else part      # reused loader sees the programs in a seed-dependent order
       items += [{"id": pid, "src": programs[pid], "loader": "shared", "record": True} for pid in order]
       jobs.append({"hashseed": s, "history": "reused_loader", "clock_offset": 100000 * si + 9000 + 100 * ci,
+                   "items": items})
+      items = []
+      for pid in part:
+        items.append({"id": "V", "src": union_variant(programs[pid]), "loader": "new", "record": False})
+        items.append({"id": pid, "src": programs[pid], "loader": "new", "record": True})
+      jobs.append({"hashseed": s, "history": "after_variant", "clock_offset": 100000 * si + 7000 + 100 * ci,
                    "items": items})
   return jobs
 
